@@ -12,7 +12,7 @@
 EXTENDS Integers, Sequences, FiniteSets, TLC
 
 CONSTANTS Clients, Names, MaxId, MaxOps,
-          Variant   \* "code" | "NoMutex" | "IgnoreKeyId" | "CachePinned" | "KeyByToken"
+          Variant   \* "code" | "NoMutex" | "IgnoreKeyId" | "CachePinned" | "KeyByToken" | "StaleOnError"
 
 None == 0
 VARIABLES cache,    \* Names -> [id, fresh, forName] | id = None when empty
@@ -23,9 +23,10 @@ VARIABLES cache,    \* Names -> [id, fresh, forName] | id = None when empty
           got,      \* Clients -> id fetched/returned (None = error)
           fromCache,\* Clients -> BOOLEAN: result came from the cache
           curAtRet, \* Clients -> token's current id for the name at the moment of return (ghost)
-          ops       \* number of environment + request steps taken (bound)
+          ops,      \* number of environment + request steps taken (bound)
+          down      \* the base token is failing (transiently): every fetch errors
 
-vars == <<cache, cur, held, pc, req, got, fromCache, curAtRet, ops>>
+vars == <<cache, cur, held, pc, req, got, fromCache, curAtRet, ops, down>>
 
 Slot(n) == IF Variant = "KeyByToken" THEN CHOOSE m \in Names : TRUE ELSE n
 Empty == [id |-> None, fresh |-> FALSE, forName |-> CHOOSE m \in Names : TRUE]
@@ -39,7 +40,7 @@ Init ==
   /\ got = [c \in Clients |-> None]
   /\ fromCache = [c \in Clients |-> FALSE]
   /\ curAtRet = [c \in Clients |-> None]
-  /\ ops = 0
+  /\ ops = 0 /\ down = FALSE
 
 InCrit(c) == pc[c] \in {"begun", "missed", "fetched"}
 
@@ -49,7 +50,7 @@ Begin(c, n, w) ==
   /\ pc' = [pc EXCEPT ![c] = "begun"]
   /\ req' = [req EXCEPT ![c] = [name |-> n, want |-> w]]
   /\ ops' = ops + 1
-  /\ UNCHANGED <<cache, cur, held, got, fromCache, curAtRet>>
+  /\ UNCHANGED <<cache, cur, held, got, fromCache, curAtRet, down>>
 
 Lookup(c) ==
   /\ pc[c] = "begun"
@@ -62,18 +63,21 @@ Lookup(c) ==
                /\ curAtRet' = [curAtRet EXCEPT ![c] = cur[req[c].name]]
           ELSE /\ pc' = [pc EXCEPT ![c] = "missed"]
                /\ UNCHANGED <<got, fromCache, curAtRet>>
-  /\ UNCHANGED <<cache, cur, held, req, ops>>
+  /\ UNCHANGED <<cache, cur, held, req, ops, down>>
 
 Fetch(c) ==   \* base token GetKey: honours the pinned id or fails
   /\ pc[c] = "missed"
   /\ LET n == req[c].name
          w == req[c].want
-         id == IF w = None THEN cur[n] ELSE IF w \in held[n] THEN w ELSE None
+         e == cache[Slot(n)]
+         \* deviation "StaleOnError": a failing fetch is papered over with whatever entry the cache still has for the name
+         stale == Variant = "StaleOnError" /\ down /\ e.id # None
+         id == IF stale THEN e.id ELSE IF down THEN None ELSE IF w = None THEN cur[n] ELSE IF w \in held[n] THEN w ELSE None
      IN /\ got' = [got EXCEPT ![c] = id]
-        /\ fromCache' = [fromCache EXCEPT ![c] = FALSE]
+        /\ fromCache' = [fromCache EXCEPT ![c] = stale]
         /\ curAtRet' = [curAtRet EXCEPT ![c] = cur[n]]
-        /\ pc' = [pc EXCEPT ![c] = IF id = None THEN "done" ELSE "fetched"]
-  /\ UNCHANGED <<cache, cur, held, req, ops>>
+        /\ pc' = [pc EXCEPT ![c] = IF id = None \/ stale THEN "done" ELSE "fetched"]
+  /\ UNCHANGED <<cache, cur, held, req, ops, down>>
 
 Store(c) ==
   /\ pc[c] = "fetched"
@@ -81,25 +85,31 @@ Store(c) ==
                 THEN [cache EXCEPT ![Slot(req[c].name)] = [id |-> got[c], fresh |-> TRUE, forName |-> req[c].name]]
                 ELSE cache
   /\ pc' = [pc EXCEPT ![c] = "done"]
-  /\ UNCHANGED <<cur, held, req, got, fromCache, curAtRet, ops>>
+  /\ UNCHANGED <<cur, held, req, got, fromCache, curAtRet, ops, down>>
 
 Reset(c) == /\ pc[c] = "done" /\ pc' = [pc EXCEPT ![c] = "idle"]
-            /\ UNCHANGED <<cache, cur, held, req, got, fromCache, curAtRet, ops>>
+            /\ UNCHANGED <<cache, cur, held, req, got, fromCache, curAtRet, ops, down>>
 
 Rotate(n, keepOld) ==
   /\ cur[n] < MaxId /\ ops < MaxOps
   /\ cur' = [cur EXCEPT ![n] = @ + 1]
   /\ held' = [held EXCEPT ![n] = IF keepOld THEN @ \cup {cur[n] + 1} ELSE {cur[n] + 1}]
   /\ ops' = ops + 1
-  /\ UNCHANGED <<cache, pc, req, got, fromCache, curAtRet>>
+  /\ UNCHANGED <<cache, pc, req, got, fromCache, curAtRet, down>>
 
 Expire ==   \* the cache lifetime passes
   /\ ops < MaxOps /\ \E n \in Names : cache[n].fresh
   /\ cache' = [n \in Names |-> [cache[n] EXCEPT !.fresh = FALSE]]
   /\ ops' = ops + 1
-  /\ UNCHANGED <<cur, held, pc, req, got, fromCache, curAtRet>>
+  /\ UNCHANGED <<cur, held, pc, req, got, fromCache, curAtRet, down>>
+
+\* the base token starts / stops failing
+Outage ==
+  /\ ops < MaxOps /\ down' = ~down /\ ops' = ops + 1
+  /\ UNCHANGED <<cache, cur, held, pc, req, got, fromCache, curAtRet>>
 
 Next ==
+  \/ Outage
   \/ \E c \in Clients, n \in Names, w \in 0..MaxId : Begin(c, n, w)
   \/ \E c \in Clients : Lookup(c) \/ Fetch(c) \/ Store(c) \/ Reset(c)
   \/ \E n \in Names, k \in BOOLEAN : Rotate(n, k)
@@ -115,6 +125,11 @@ MutexExclusive == \A c, d \in Clients : (InCrit(c) /\ InCrit(d)) => c = d
 \* a request that pins a key id never receives a key with a different id
 PinnedNeverWrong ==
   \A c \in Clients : (pc[c] = "done" /\ req[c].want # None /\ got[c] # None) => got[c] = req[c].want
+
+\* after a miss the only way to a result is a successful fetch (which passes through "fetched"): a fetch that fails is
+\* an error for the caller, whatever the cache may still hold
+FailedFetchIsError ==
+  [][\A c \in Clients : (pc[c] = "missed" /\ pc'[c] = "done") => got'[c] = None]_vars
 
 \* pinned lookups never populate the cache
 PinnedNotCached ==
